@@ -470,6 +470,13 @@ class Point:
         return f(thr), f(pole), f(mthr)
 
     def value(self, sym):
+        """value of a library symbol; KeyError for a symbol the call's arguments do not explain"""
+        try:
+            return self._value(sym)
+        except (IndexError, TypeError, ValueError) as e:
+            raise KeyError(f"{sym}: {e}") from e
+
+    def _value(self, sym):
         if isinstance(sym, sp.Indexed):
             name = str(sym.base.label)
             idx = [int(i) for i in sym.indices]
@@ -646,14 +653,18 @@ def _numeric_same(a, b, n, np_, seed, pts=3, real_beta=False):
     """max relative difference of two expressions / matrices on seeded points."""
     rng = random.Random(seed)
     worst = sp.Float(0)
-    for _ in range(pts):
-        pt = Point(rng, n, np_, real_beta=real_beta)
-        if hasattr(a, "shape"):
-            A, B = num_matrix(a, pt), num_matrix(b, pt)
-            for x, y in zip(A, B):
-                worst = max(worst, rel_diff(x, y))
-        else:
-            worst = max(worst, rel_diff(num(a, pt), num(b, pt)))
+    try:
+        for _ in range(pts):
+            pt = Point(rng, n, np_, real_beta=real_beta)
+            if hasattr(a, "shape"):
+                A, B = num_matrix(a, pt), num_matrix(b, pt)
+                for x, y in zip(A, B):
+                    worst = max(worst, rel_diff(x, y))
+            else:
+                worst = max(worst, rel_diff(num(a, pt), num(b, pt)))
+    except (KeyError, TypeError, ValueError, ZeroDivisionError):
+        # symbols that the arguments do not explain / no finite value: certainly not the same
+        return sp.Float(10) ** 6
     return worst
 
 
@@ -736,7 +747,7 @@ def work_obs(job):
         u, sy = unitarity_residuals(Tv)
         rec["uq"], rec["sq"] = quant(u), quant(sy)
         rec["_u"], rec["_s"] = float(u), float(sy)
-    except (TypeError, ValueError, ZeroDivisionError) as e:
+    except (KeyError, TypeError, ValueError, ZeroDivisionError) as e:
         rec["finite"] = 0
         rec["_err"] = f"{type(e).__name__}: {e}"[:200]
     return rec
@@ -822,10 +833,14 @@ def work_reduce(job):
     rng = random.Random(seed)
     worst = sp.Float(0)
     pts = 4
-    for _ in range(pts):
-        pt = Point(rng, 1, 1)
-        if unit:
-            pt.gamma, pt.beta = [[sp.Integer(1)]], [sp.Integer(1)]
-        worst = max(worst, rel_diff(num(lib_u, pt), num(exp, pt)))
+    err = ""
+    try:
+        for _ in range(pts):
+            pt = Point(rng, 1, 1)
+            if unit:
+                pt.gamma, pt.beta = [[sp.Integer(1)]], [sp.Integer(1)]
+            worst = max(worst, rel_diff(num(lib_u, pt), num(exp, pt)))
+    except (KeyError, TypeError, ValueError, ZeroDivisionError) as e:
+        worst, err = sp.Float(10) ** 6, f" [{type(e).__name__}: {e}]"[:200]
     return {"k": "reduce", "cls": tag, "form": form, "X": Xn, "L": L, "d": d, "unit": int(unit), "struct": struct, "pts": pts,
-            "resq": quant(worst), "_diff": float(worst), "_lib": str(lib)[:400], "_exp": str(exp)[:400]}
+            "resq": quant(worst), "_diff": float(worst), "_lib": str(lib)[:400] + err, "_exp": str(exp)[:400]}
